@@ -193,11 +193,12 @@ class C09(Prop):
     theorems = ["C09_ordinal_buckets_frequent", "C09_quantitative_buckets_frequent",
                 "C09_merging_conserves_and_is_contiguous", "C09_merges_only_neighbours",
                 "C09_ordinal_fit_is_the_loop", "C09_merging_terminates",
-                "C09_rare_pass_trigger_irrelevant",
-                "C09_categorical_default_group", "C09_categorical_nan_separate",
-                "C09_boundaries", "C09_boundaries_then_inf", "C09_boundaries_strict_refuted",
-                "C09_boundaries_strict_partial", "C09_boundaries_strict_after_repair",
-                "C09_quantile_recursion_depth", "C09_checker_sound"]
+                "C09_rare_pass_trigger_irrelevant", "C09_categorical_default_group",
+                "C09_categorical_nan_separate", "C09_boundaries", "C09_boundaries_then_inf",
+                "C09_boundaries_strict_refuted", "C09_boundaries_strict_partial",
+                "C09_boundaries_strict_after_repair", "C09_quantile_recursion_depth", "C09_checker_sound",
+                "C09_quantitative_fit_never_fails_internally", "C09_quantitative_fit_buckets_frequent",
+                "C09_quantitative_checker_predicate_holds_on_model"]
     rule = ("one feature fitted by ContinuousDiscretizer / QuantitativeDiscretizer / "
             "QualitativeDiscretizer (ordinal or categorical) / Discretizer on 30-600 rows: numeric "
             "columns continuous, discrete, spiked, tied around the over-representation threshold "
